@@ -604,7 +604,11 @@ class ChargingNetwork(BaseSimObj):
         out_obj._EVSEs = evses
 
         if attribute_dict["constraint_matrix"] is not None:
-            out_obj.constraint_matrix = np.array(attribute_dict["constraint_matrix"])
+            # The reshape restores the (0, num_evses) shape of a matrix whose constraints
+            # were all removed (JSON stores it as an empty list).
+            out_obj.constraint_matrix = np.array(
+                attribute_dict["constraint_matrix"]
+            ).reshape((len(attribute_dict["constraint_index"]), len(evses)))
         else:
             out_obj.constraint_matrix = attribute_dict["constraint_matrix"]
         out_obj.magnitudes = np.array(attribute_dict["magnitudes"])
